@@ -204,7 +204,20 @@ class ObjectDomain(LazyGenerators, EffectDomain):
         got = self._class_attr_expr(ci, attr)
         if got is not None and interp is not None:
             return self._eval_class_expr(interp, got[0], got[1], st, fr)
+        fallback = self._method(ci, "__getattr__") if not (attr.startswith("__") and attr.endswith("__")) else None
+        if fallback is not None and interp is not None:
+            # normal lookup failed: the class's __getattr__ answers
+            params = [a.arg for a in fallback.args.args]
+            return self.run_function(interp, fallback, {params[1]: ("const", attr)}, st, fr, receiver=ci, self_value=inst) if len(params) == 2 else None
+        if self.closed_instances and interp is not None and not (attr.startswith("__") and attr.endswith("__")) and all(self._followed(c) for c in self.classes.mro(ci)) \
+                and all(b is not None or dotted(e_) == "object" for c in self.classes.mro(ci) for b, e_ in zip(c.bases, c.base_exprs)):
+            # the instance was built by constructors this model followed to the end (every class of its MRO is read as
+            # written): an attribute none of them defines and nothing assigned does not exist
+            return [exc(("exc", "AttributeError"), st)]
         return None
+
+    # Reading an attribute that neither the state nor any class of a fully followed MRO defines raises AttributeError.
+    closed_instances = False
 
     def _declared_property(self, ci, name):
         """(getter def, setter def or None) when a class of the MRO declares ``name`` as a property (either spelling), else None."""
@@ -1231,12 +1244,16 @@ class ObjectDomain(LazyGenerators, EffectDomain):
                         found = self._root_value_attr(interp, name, r.state, fr) if known else None
                     else:
                         found = self._inst_attr(interp, inst, name, r.state, fr)
-                    if d == "hasattr":
-                        out.append(val(TRUE if found is not None else FALSE, r.state))
-                    elif found is None:
-                        out.append(val(r.value[2], r.state))
-                    else:
-                        out.extend(found)
+                    for f_r in (found if found is not None else [None]):
+                        # (a lookup that ends in AttributeError -- from __getattr__, or because nothing defines the name -- is "not there")
+                        missing = f_r is None or (f_r.kind == "exc" and f_r.value[:2] == ("exc", "AttributeError"))
+                        s_r = r.state if f_r is None else f_r.state
+                        if d == "hasattr":
+                            out.append(val(FALSE if missing else TRUE, s_r) if missing or f_r.kind == "val" else f_r)
+                        elif missing:
+                            out.append(val(r.value[2], s_r))
+                        else:
+                            out.append(f_r)
                 return out
         # setattr(x, "name", v) / getattr(x, "name") with a constant name are the attribute store / load
         if d in ("setattr", "getattr") and not call.keywords and len(call.args) == (3 if d == "setattr" else 2) \
